@@ -801,10 +801,10 @@ class Gen:
 
 
 # ----------------------------------------------------------------------- runner
-def materialise(case):
+def materialise(case, on_record=None):
     """case -> (world, machine) with streams filled."""
     w = build_world(case["world"])
-    m = W.Machine(w, lint=case.get("lint", False))
+    m = W.Machine(w, lint=case.get("lint", False), on_record=on_record)
     ths = w.threads
     for (ti, mcv, ph, jh, dt) in case["actions"]:
         m.emit(ths[ti], mcv, bytes.fromhex(ph), None if jh is None else bytes.fromhex(jh), dt)
@@ -812,9 +812,9 @@ def materialise(case):
     return w, m
 
 
-def run_machine_case(case, ctx, keys_filter=None, post=None, extra_flags=()):
+def run_machine_case(case, ctx, keys_filter=None, post=None, extra_flags=(), on_record=None):
     """Shared oracle for machine-mode checks."""
-    w, m = materialise(case)
+    w, m = materialise(case, on_record=on_record)
     d = ctx.workdir()
     try:
         tdir = os.path.join(d, "ovni")
